@@ -119,6 +119,62 @@ func cmdHeap(args []string) {
 			emit(heapObs{Site: name, Mode: mode, Shared: shared, SchemaChanged: changed, SecondSame: reflect.DeepEqual(first, second), InputSame: true,
 				Note: fmt.Sprintf("default now %v, first %v, second %v", def, first, second)})
 		}
+		// 1b. the write comes from an ELEMENT-level transform, or from the enclosing struct's transform; nested slice defaults
+		{
+			def := []string{"a", "b"}
+			bang := func(p any, c z.Ctx) error { *(p.(*string)) += "!"; return nil }
+			s := z.Slice(z.String().PostTransform(bang)).Default(def)
+			run := func() []string {
+				var d []string
+				if mode == "parse" {
+					s.Parse(nil, &d)
+				} else {
+					s.Validate(&d)
+				}
+				return d
+			}
+			first := run()
+			second := run()
+			emit(heapObs{Site: "slice-default-elem-transform-" + mode, Mode: mode, SchemaChanged: !reflect.DeepEqual(def, []string{"a", "b"}), SecondSame: reflect.DeepEqual(first, second), InputSame: true,
+				Note: fmt.Sprintf("default now %v, first %v, second %v", def, first, second)})
+			def2 := []int{2, 2}
+			type wrap struct{ V []int }
+			st := z.Struct(z.Schema{"v": z.Slice(z.Int()).Default(def2)}).PostTransform(func(p any, c z.Ctx) error {
+				w := p.(*wrap)
+				if len(w.V) > 0 {
+					w.V[0] = 99
+				}
+				return nil
+			})
+			runS := func() []int {
+				var d wrap
+				if mode == "parse" {
+					st.Parse(map[string]any{}, &d)
+				} else {
+					st.Validate(&d)
+				}
+				return d.V
+			}
+			f1 := runS()
+			f2 := runS()
+			emit(heapObs{Site: "slice-default-struct-transform-" + mode, Mode: mode, Shared: sameBacking(f2, def2), SchemaChanged: !reflect.DeepEqual(def2, []int{2, 2}), SecondSame: reflect.DeepEqual(f1, f2), InputSame: true,
+				Note: fmt.Sprintf("default now %v, first %v, second %v", def2, f1, f2)})
+			def3 := [][]string{{"a"}, {"b", "c"}}
+			s3 := z.Slice(z.Slice(z.String().PostTransform(bang))).Default(def3)
+			run3 := func() [][]string {
+				var d [][]string
+				if mode == "parse" {
+					s3.Parse(nil, &d)
+				} else {
+					s3.Validate(&d)
+				}
+				return d
+			}
+			g1 := run3()
+			g2 := run3()
+			emit(heapObs{Site: "nested-slice-default-" + mode, Mode: mode, SchemaChanged: !reflect.DeepEqual(def3, [][]string{{"a"}, {"b", "c"}}), SecondSame: reflect.DeepEqual(g1, g2), InputSame: true,
+				Note: fmt.Sprintf("default now %v, first %v, second %v", def3, g1, g2)})
+		}
 		// 2. primitive defaults and catch values with a transform that rewrites the destination
 		{
 			s := z.String().Default("dflt").PostTransform(func(p any, c z.Ctx) error { *(p.(*string)) = "mutated"; return nil })
